@@ -538,9 +538,32 @@ func lineMate(p apt, sign int64) (apt, bool) {
 	return apt{x: x2, y: y2}, true
 }
 
+// endoMate returns the point (beta^k * x, y), beta a primitive cube root of unity mod p: a different point with the same y
+// coordinate (the curve has j-invariant 0), which a comparison that looks at one coordinate only cannot tell from P.
+func endoMate(p apt, k int) (apt, bool) {
+	if p.inf || p.x.Sign() == 0 {
+		return p, false
+	}
+	sq, ok := sqrtP(modP(big.NewInt(-3)))
+	if !ok {
+		return p, false
+	}
+	inv2 := new(big.Int).ModInverse(big.NewInt(2), bigP)
+	beta := modP(new(big.Int).Mul(new(big.Int).Sub(sq, big1), inv2))
+	if k == 2 {
+		beta = modP(new(big.Int).Mul(beta, beta))
+	}
+	return apt{x: modP(new(big.Int).Mul(beta, p.x)), y: new(big.Int).Set(p.y)}, true
+}
+
 func (r *rng) pointPair() (rawPt, rawPt) {
 	p := r.affinePoint()
 	var q apt
+	if r.intn(10) == 0 {
+		if m, ok := endoMate(p, 1+r.intn(2)); ok {
+			return proj(p, r.lambda()), proj(m, r.lambda())
+		}
+	}
 	if r.intn(8) == 0 {
 		if m, ok := lineMate(p, []int64{1, -1}[r.intn(2)]); ok {
 			return proj(p, r.lambda()), proj(m, r.lambda())
@@ -590,6 +613,16 @@ func genPoints(e *emitter, r *rng, n int, withMul int) {
 		case 11, 12:
 			e.line("PT.enc", argsP(p))
 		case 14:
+			if r.intn(2) == 0 {
+				// an operand with a history: created as the base point or by decoding, then overwritten in place
+				k := showL(montN(r.scalarVal()))
+				if r.intn(4) == 0 {
+					k = showL(montN(big.NewInt(int64(2 + r.intn(6)))))
+				}
+				e.line("PT.viaapi", argsP(p), argsP(q), []string{"base", "dec"}[r.intn(2)],
+					[]string{"set", "mul", "dbl", "add", "neg", "ident", "none"}[r.intn(7)], k)
+				break
+			}
 			// operands that an API call turned into the identity while they held another point
 			e.line("PT.viaid", argsP(p), argsP(q), []string{"identity", "mulnil", "decode00"}[r.intn(3)])
 		case 13:
@@ -1190,7 +1223,7 @@ var subFamilies = map[string]subFamily{
 	"cmp":      {"scalarapi", []string{"SC.eq", "SC.iszero", "SC.isone", "SC.leq", "SC.csel"}},
 	"scarith":  {"scalarapi", []string{"SC.add", "SC.sub", "SC.mul", "SC.addself", "SC.subself", "SC.mulself", "SC.sq", "SC.inv", "SC.set", "SC.pow", "SC.powself", "SC.setu64", "SC.zero", "SC.one", "SC.minusone"}},
 	"scenc":    {"scalarapi", []string{"SC.enc", "SC.dec", "SC.unmarshal", "SC.dechex"}},
-	"grouplaw": {"points", []string{"PT.viaid", "PT.add", "PT.addnil", "PT.addself", "PT.dbl", "PT.neg", "PT.sub", "PT.subnil", "PT.subself"}},
+	"grouplaw": {"points", []string{"PT.viaid", "PT.viaapi", "PT.add", "PT.addnil", "PT.addself", "PT.dbl", "PT.neg", "PT.sub", "PT.subnil", "PT.subself"}},
 	"eq":       {"points", []string{"PT.eq", "PT.eqself", "PT.isid"}},
 	"enc":      {"points", []string{"PT.enc", "G.base", "G.consts", "G.order"}},
 	"sfcmp":    {"scalarfield", []string{"S.eq", "S.iszero", "S.cmov"}},
